@@ -41,7 +41,7 @@ def oracle(ctx, p, o, i):
 
 
 def run(ctx):
-    for m, pfx in [("I18nVerif.Theorems.C01", "C01_"), ("I18nVerif.Theorems.C01Reduce", "C01_")]:
+    for m, pfx in [("I18nVerif.Theorems.C01", "C01_"), ("I18nVerif.Theorems.C01Reduce", "C01_"), ("I18nVerif.Theorems.C01EndToEnd", "C01_")]:
         lean_check(ctx, m, pfx)
     rng = ctx.rng
     binp = build_parser(ctx)
